@@ -5,6 +5,8 @@ import traceback
 from lib import common as C
 
 MODULES = {
+    "C01": "checks.conc_checks", "C04": "checks.conc_checks", "C06": "checks.conc_checks", "C07": "checks.conc_checks",
+    "C10": "checks.conc_checks", "C17": "checks.conc_checks",
     "C03": "checks.cache_checks", "C05": "checks.cache_checks", "C08": "checks.cache_checks",
     "C09": "checks.cache_checks", "C14": "checks.cache_checks", "C13": "checks.cache_checks",
 }
